@@ -350,7 +350,16 @@ func mutateModules(r *rand.Rand, ms *pbsubstreams.Modules, outputName string) st
 		ms.Modules = append(ms.Modules, &pbsubstreams.Module{Name: "lonely"})
 		return "add-bare-module"
 	}
-	switch r.Intn(36) {
+	switch r.Intn(40) {
+	case 36, 37, 38, 39:
+		// the manifest loader's UNSET initial block (2^64-1) on every store, sometimes on every module
+		all := r.Intn(2) == 0
+		for _, mm := range ms.Modules {
+			if all || mm.GetKindStore() != nil {
+				mm.InitialBlock = ^uint64(0)
+			}
+		}
+		return "stores-with-unset-initial-block-value"
 	case 34:
 		// a block_filter message that is present but names no module (with or without a query)
 		m.BlockFilter = &pbsubstreams.Module_BlockFilter{}
